@@ -280,7 +280,7 @@ type Outcome struct {
 	Undecided string
 	Asked     []string // atoms the world was asked (for diagnostics)
 	CutBlock  *ssa.BasicBlock
-	Assumed   []string // assertions (conditions guarding nothing but a panic) taken to hold
+	Assumed   []string          // assertions (conditions guarding nothing but a panic) taken to hold
 	Path      []int             // indices of the region function's blocks, in execution order (after the prologue)
 	Env       map[string]string // final value of every phi of the region function, by source name
 }
